@@ -73,7 +73,8 @@ def install(eng):
     LT = T.ListV(vc.Target)
     CacheT = T.DictT(vc.Target, vc.Status)
     GHOSTS = ["ghost:log_pos", "ghost:log_deps", "ghost:log_n", "SpecHashes.hashes", "Backend._tracked_jobs",
-              "Backend._job_states", "Target.options"]
+              "Backend._job_states", "Target.options", "ghost:sched_accepted", "ghost:sched_deps",
+              "ghost:sched_target"]
 
     eng.contract("iface:status_func", params={"target": vc.Target}, returns=vc.BStatus,
                  returns_expr="BNow(target)", trusted=True, pure=True,
